@@ -500,3 +500,15 @@ func (p *Prod) GoDecls() string {
 	rec(p)
 	return sb.String()
 }
+
+// HasNullableRepetition reports whether some * or + group has a body that can match nothing (the
+// library then iterates up to MaxIterations).
+func (p *Prod) HasNullableRepetition() bool {
+	found := false
+	p.Walk(func(n *Node) {
+		if n.K == KGroup && (n.Mode == '*' || n.Mode == '+') && n.X.Nullable() {
+			found = true
+		}
+	})
+	return found
+}
